@@ -339,11 +339,6 @@ static bool is_bin(int ch);
 static bool is_bin_(int ch);
 
 
-//! check if a symbol holds a octal value
-static bool is_oct(int ch);
-static bool is_oct_(int ch);
-
-
 //! check if a symbol holds a decimal value;
 static bool is_dec(int ch);
 static bool is_dec_(int ch);
@@ -810,7 +805,7 @@ static bool parse_code_placeholder(TokenContext &ctx, Chunk &pc)
    }
    ctx.restore();
    return(false);
-}
+} // parse_code_placeholder
 
 
 static void parse_suffix(TokenContext &ctx, Chunk &pc, bool forstring = false)
@@ -865,21 +860,6 @@ static bool is_bin(int ch)
 static bool is_bin_(int ch)
 {
    return(  is_bin(ch)
-         || ch == '_'            // 95
-         || ch == '\'');         // 39
-}
-
-
-static bool is_oct(int ch)
-{
-   return(  (ch >= '0')         // 48
-         && (ch <= '7'));       // 55
-}
-
-
-static bool is_oct_(int ch)
-{
-   return(  is_oct(ch)
          || ch == '_'            // 95
          || ch == '\'');         // 39
 }
@@ -1017,10 +997,11 @@ static bool parse_number(TokenContext &ctx, Chunk &pc)
          case '8':
          case '9':
 
+            // 019.5 and 08e1 are decimal floating constants: do not stop at an 8 or a 9
             do
             {
                pc.Str().append(ctx.get());
-            } while (is_oct_(ctx.peek()));
+            } while (is_dec_(ctx.peek()));
 
             break;
 
@@ -2622,9 +2603,9 @@ static bool parse_next(TokenContext &ctx, Chunk &pc, const Chunk *prev_pc)
    {
       // every punctuator is plain ASCII: a character beyond that ends the
       // candidate, it must not pass as its low byte (U+012B is not a '+')
-      size_t ch = ctx.peek(idx);
+      size_t cp = ctx.peek(idx);
 
-      punc_txt[idx] = (ch < 0x80) ? static_cast<char>(ch) : '\0';
+      punc_txt[idx] = (cp < 0x80) ? static_cast<char>(cp) : '\0';
    }
 
    punc_txt[6] = '\0';
